@@ -103,6 +103,9 @@ def _structure(
     # The indirect (load) edges are kept apart: a function may both depend on the keep of a path
     # and load this path, these are two different edges between the same pair of nodes.
     indirect_edges: OrderedDict[Tuple[DDSPath, DDSPath], Edge] = OrderedDict()
+    # The kept nodes whose own arguments are not all known at introspection time:
+    # the only nodes that can depend on the calls made before them (implicit edges).
+    context_dependent: Set[DDSPath] = set()
 
     # Returns the list of head nodes:
     # All the nodes that can be evaluated independently inside a function.
@@ -140,6 +143,8 @@ def _structure(
             else:
                 for n1 in start_nodes:
                     for n2 in l1:
+                        if n2.path not in context_dependent:
+                            continue
                         k1 = n1.path
                         k2 = n2.path
                         if k1 not in node_deps:
@@ -166,6 +171,8 @@ def _structure(
         else:
             # We are returning a path -> create a node
             res_node = Node(fis_.store_path, sig)
+            if any(s is None for s in fis_.arg_input.named_args.values()):
+                context_dependent.add(res_node.path)
             nodes[res_node.path] = res_node
             all_refs[fis_.store_path] = sig
             sub_set.update([n.path for n in sub_nodes])
